@@ -68,6 +68,8 @@ def check(run, tier):
     progs = targeted.tip_programs("evo") + targeted.tip_programs("fluent")
     # EVO script commands: mask = OR of the distinct tips, volume slot i belongs to tip i
     progs += evo.targeted_programs()
+    from ..drivers import emitters
+    progs += [p for dev in ("evo", "fluent") for p in emitters.targeted_programs(dev) if "tip" in p["id"]]
     for i in range(60 if q else 1500):
         progs.append(evo.evo_program(r, f"C10/e{i}", r.randint(2, 6), kinds=["canonical", "permuted", "permuted", "duptip", "badtip"]))
     run_programs(run, progs)
